@@ -67,6 +67,9 @@ class Matrix(abc.ABC):
 
     def __setstate__(self, state: dict) -> None:
         self.__dict__.update(state)
+        # A cached hash is only valid in the interpreter which computed it (hashes of
+        # byte sequences are salted per process) so recompute when first needed
+        self._hash = None
         # Arrays held by matrix objects are read-only, however the flag is not preserved
         # when arrays are copied or unpickled so restore it for (deep) copies
         for value in self.__dict__.values():
